@@ -14,7 +14,7 @@ import (
 	"time"
 )
 
-var repoPatterns = []string{"./align", "./distance/dna", "./distance/protein", "./models", "./models/dna", "./models/protein",
+var repoPatterns = []string{"./align", "./cmd", "./distance/dna", "./distance/protein", "./models", "./models/dna", "./models/protein",
 	"./stats", "./gutils", "./io", "./io/fasta", "./io/phylip", "./io/nexus", "./io/clustal", "./io/stockholm", "./io/partition", "./io/paml", "./io/utils", "./io/countprofile"}
 
 type KnownFinding struct {
